@@ -74,6 +74,8 @@ class ForcedRng:
             raise NeedDecision("choice", p.tolist())
         d = self.script[self.k]
         self.k += 1
+        if callable(d):  # the decision is described by what it means (which entry of THIS vector), not by a position fixed in advance
+            d = d(n, p)
         self.log.append(["choice", int(d), p.tolist()])
         return int(d)
 
